@@ -23,6 +23,12 @@ def known_class(lit, ref, rustc_accepts):
         cand = re.sub(r"\.(?![0-9*]|[^\W\d]\w*\$)", "", lit)
         if cand != lit and FP.ref_parse(cand) is not None:
             return "rustc accepts `.` without a precision (not in the documented grammar `'.' precision`)"
+    if ref is None and rustc_accepts:
+        # whitespace between the argument and `:` / `}` (`{0 :x}`): rustc skips it, the documented grammar
+        # `'{' [argument] [':' format_spec] [ws]* '}'` has whitespace only before the closing brace
+        cand = re.sub(r"(\{[^{}:\s]+)\s+(?=:)", r"\1", lit)
+        if cand != lit and FP.ref_parse(cand) is not None:
+            return "rustc accepts whitespace between the argument and `:` (not in the documented grammar)"
     if ref is not None and not rustc_accepts and re.search(r"\d{5,}", lit):
         return "rustc limits positions / widths / precisions to u16 (the documented grammar says usize)"
     if ref is None and not rustc_accepts:
@@ -87,6 +93,8 @@ def rule_reference_oracle(ctx):
         pool.append(s)
     rnd.shuffle(pool)
     sample = pool[: 900 if ctx.tier == "thorough" else 300]
+    # probes of the listed asymmetry classes (always part of the sample, so the classes stay documented by a run)
+    sample += [x for x in ("{0 :x}", "{0 }", "{:.}", "{0:.}") if x not in sample]
     lines = ["#![allow(unused, non_ascii_idents, uncommon_codepoints, confusable_idents, mixed_script_confusables)]", "pub fn f() {"]
     index = {}
     for lit in sample:
